@@ -46,6 +46,11 @@ func genRenderData(r *vk.RNG, maxContainers int) []renderStream {
 	}
 	for ci := 0; ci < nc; ci++ {
 		name := fmt.Sprintf("ctr-%d", ci)
+		if r.Chance(1, 3) {
+			// names as deployments give them: long, composed, not ASCII only
+			name = vk.Pick(r, []string{"shop-grafana", "monitoring-api", "observability-stack-clickhouse-keeper", "registry", "web-db", "web-otel-collector",
+				"k8s_POD_kube-apiserver-master_kube-system_0a1b2c3d-4e5f", "a", strings.Repeat("x", 200), "ünï-容器", "compose_project_service_with_a_rather_long_name", "Z"}) + fmt.Sprintf("-%d", ci)
+		}
 		if ci == 3 && r.Bool() {
 			name = "" // a stream without container label
 		}
